@@ -58,3 +58,5 @@ open ZnVerif.Properties.C03
 #print axioms LayoutExample.frProgram_rendered
 #print axioms LiteralExample.mlEls_wf
 #print axioms LiteralExample.mlProgram_rendered
+#print axioms MultiCommentExample.mcEls_wf
+#print axioms MultiCommentExample.mcProgram_rendered
